@@ -19,6 +19,36 @@ mod mds;
 mod rescue;
 pub use rescue::{Rp62_248, Rp64_256, RpJive64_256};
 
+// VERIFICATION HOOKS
+// ================================================================================================
+
+/// Verification hooks (compiled only with `--cfg winterfell_verif`): re-export the crate-private
+/// frequency-domain MDS products and the private Rp62_248 permutation for the harness in /verif.
+#[cfg(winterfell_verif)]
+pub mod verif_hooks {
+    use math::fields::{f62, f64};
+
+    pub fn mds_multiply_12x12(state: &mut [f64::BaseElement; 12]) {
+        super::mds::mds_f64_12x12::mds_multiply(state)
+    }
+
+    pub fn mds_multiply_8x8(state: &mut [f64::BaseElement; 8]) {
+        super::mds::mds_f64_8x8::mds_multiply(state)
+    }
+
+    pub fn rp62_248_permutation(state: &mut [f62::BaseElement; 12]) {
+        super::rescue::rp62_248_verif::permutation(state)
+    }
+
+    pub fn rp62_248_mds() -> [[f62::BaseElement; 12]; 12] {
+        super::rescue::rp62_248_verif::mds()
+    }
+
+    pub fn rp62_248_ark() -> ([[f62::BaseElement; 12]; 7], [[f62::BaseElement; 12]; 7]) {
+        super::rescue::rp62_248_verif::ark()
+    }
+}
+
 // HASHER TRAITS
 // ================================================================================================
 
